@@ -1,5 +1,5 @@
 (* operations of the per-format layout models (NWChem electron section, ...) *)
-From BSE Require Import Model.Val Model.Basis Model.Nwchem Model.G94 Model.Turbomole Model.NwchemEcp Model.TurbomoleEcp Model.GamessUs Model.GamessUsEcp Model.Libmol Model.Dalton Model.DaltonEcp.
+From BSE Require Import Model.Val Model.Basis Model.Nwchem Model.G94 Model.Turbomole Model.NwchemEcp Model.TurbomoleEcp Model.GamessUs Model.GamessUsEcp Model.Libmol Model.Dalton Model.DaltonEcp Model.Cp2k Model.Cp2kEcp Model.Genbas Model.GenbasEcp Model.Molpro Model.Demon2k Model.Demon2kEcp.
 Definition dec_zshells (v : val) : res (list (Z * list sshell)) :=
   do l <- as_list v;
   mapM (fun x => match x with
@@ -33,6 +33,13 @@ Definition enc_gus_el (e : gus_el) : val :=
   VDict [("electron_shells", match g_shells e with Some shs => VList (map enc_shell shs) | None => VNone end);
          ("ecp_electrons", match g_ecp e with Some g => VInt (fst g) | None => VNone end);
          ("ecp_potentials", match g_ecp e with Some g => VList (map enc_epot (snd g)) | None => VNone end)].
+Definition dec_zeshells (v : val) : res (list (Z * (Z * list sshell))) :=
+  do l <- as_list v;
+  mapM (fun x => match x with
+                 | VList [VInt z; VInt ne; shs] => do sl <- as_list shs; do ss <- mapM dec_shell sl; ok (z, (ne, ss))
+                 | _ => fail EDecode
+                 end) l.
+Definition enc_znwels (r : list (Z * nw_el)) : val := VList (map (fun ze => VList [VInt (fst ze); enc_nw_el (snd ze)]) r).
 Definition ops_formats (op : string) (args : list val) : option (res val) :=
   match op, args with
   | "nw_write_electron", [VStr harm; els] => Some (do e <- dec_zshells els; do t <- nw_write_electron harm e; ok (VStr t))
@@ -48,6 +55,14 @@ Definition ops_formats (op : string) (args : list val) : option (res val) :=
   | "lmol_read_electron", [ls] => Some (do l <- dec_strs ls; do r <- lmol_read_electron l; ok (enc_zshells r))
   | "dal_write_all", [VStr name; els; ecps] => Some (do e <- dec_zshells els; do c <- dec_zecps ecps; do t <- dal_write_all name e c; ok (VStr t))
   | "dal_read_all", [ls] => Some (do l <- dec_strs ls; do r <- dal_read_all l; ok (VList (map (fun ze => VList [VStr (fst ze); enc_nw_el (snd ze)]) r)))
+  | "cp2k_write_all", [VStr name; els; ecps] => Some (do e <- dec_zshells els; do c <- dec_zecps ecps; do t <- cp2k_write_all name e c; ok (VStr t))
+  | "cp2k_read_electron", [ls] => Some (do l <- dec_strs ls; do r <- cp2k_read_electron l; ok (enc_zshells r))
+  | "c4ecp_write", [VStr name; VStr desc; els; ecps] => Some (do e <- dec_zshells els; do c <- dec_zecps ecps; do t <- c4ecp_write name desc e c; ok (VStr t))
+  | "c4ecp_read", [ls] => Some (do l <- dec_strs ls; do r <- c4ecp_read l; ok (enc_znwels r))
+  | "mpro_write_electron", [VStr harm; els] => Some (do e <- dec_zshells els; do t <- mpro_write_electron harm e; ok (VStr t))
+  | "mpro_read_electron", [ls] => Some (do l <- dec_strs ls; do r <- mpro_read_electron l; ok (enc_zshells r))
+  | "d2k_write_all", [VBool sph; VStr name; els; ecps] => Some (do e <- dec_zeshells els; do c <- dec_zecps ecps; do t <- d2k_write_all sph name e c; ok (VStr t))
+  | "d2k_read_all", [ls] => Some (do l <- dec_strs ls; do r <- d2k_read_all l; ok (enc_znwels r))
   | "g94_write_electron", [els] => Some (do e <- dec_zshells els; do t <- g94_write_electron e; ok (VStr t))
   | "tm_write_electron", [VStr role; VStr name; els] => Some (do e <- dec_zshells els; do t <- tm_write_electron role name e; ok (VStr t))
   | "tm_read_electron", [ls] => Some (do l <- dec_strs ls; do r <- tm_read_electron l; ok (enc_zshells r))
